@@ -177,3 +177,33 @@ Example C04_example_header_short_track :
   let r := hdr_file unit toy_hash toy_chk toy_dec tt false 2 6 1 4 5 file track in
   f_out r = Some [x61; x62; x63; x64; x65] /\ f_verdicts r = [Repaired true true].
 Proof. vm_compute. split; reflexivity. Qed.
+
+(* ------------------------------------------------------------------ *)
+(* dec_bounded as a THEOREM for codecs 1 and 2 (added by the integrator).  The decoder the tools call for codecs 1/2 is
+   ECCMan.decode = FacadeDec.fac_decode12 around an ARBITRARY third-party decoder `inner` (only its output lengths are
+   assumed): whatever `inner` answers, a value committed on the strength of the syndrome check alone lies within the
+   errors-and-erasures radius of the received block + parity (2*errors + erasures <= mb - k, an erasure being every
+   received symbol equal to the erasure symbol when erasure handling is on) of its re-encoded codeword.  chk / enc are
+   the verified facade check / encoder of the real codecs; the block geometry is k <= mb <= 255, |msg| <= k, |ecc| <= mb - k. *)
+From Coq Require Import NArith Lia.
+From PFF Require Import Facade FacadeDec Proofs.FacadeP Proofs.FacadeDecP Proofs.CodecInst.
+
+Theorem C04_block_radius_codecs12 : forall (algo : N) (mb : nat) hash
+    (inner : nat -> list byte -> list nat -> option (list byte * list byte)) (o : option byte) fast b,
+  mb <= 255 -> bk b <= mb -> length (msg b) <= bk b -> length (ecc b) <= mb - bk b ->
+  (forall k r E mr er_, inner k r E = Some (mr, er_) -> length mr = k /\ length er_ <= mb - k) ->
+  let dec := fun k (o : option byte) m p => fac_decode12 (inner k) mb k 0 o m p in
+  let c := fst (block_step (option byte) hash (pchk algo mb) dec o fast b) in
+  c = msg b \/ hash c = hsh b \/ pcap mb (bk b) o (msg b, ecc b) (c, penc algo mb (bk b) c).
+Proof.
+  intros algo mb hash inner o fast b Hmb Hk Lm Le IL dec c.
+  destruct (C04_block (option byte) hash (pchk algo mb) dec o fast b) as [H|[H|(p' & D & K)]]; [left; exact H|right; left; exact H|].
+  right. right. fold c in D, K. unfold dec in D.
+  destruct (fac_decode12_bounded (inner (bk b)) mb (bk b) 0 o (IL (bk b)) (msg b) (ecc b) c p' Lm Le D) as (L1 & L2 & W).
+  cbn [eff_k Nat.eqb] in L2, W.
+  assert (Ep : p' = penc algo mb (bk b) c).
+  { unfold penc. apply (fac_parity_unique (codec_of algo) (codec_field algo) mb (bk b) 0 c p' Hmb); cbn [eff_k Nat.eqb]; try assumption; try lia. }
+  unfold pcap. cbn [fst snd]. split; [exact L1|]. split; [apply pipe_enc_len|]. split; [exact Le|].
+  rewrite <- Ep. exact W.
+Qed.
+Print Assumptions C04_block_radius_codecs12.
